@@ -39,6 +39,11 @@ check('C05', level='exploration', steps=[dict(src='drv/c05.c', variant='plain', 
             "non-trivial = odometer strings that start with '[' (raw) or contain ':' or '.' (bracket content) and have >= 3 bytes; counted by the driver"),
       deadline=dict(quick=240, thorough=3000))
 
+check('C01', level='exploration', steps=[dict(src='drv/c01.c', variant='plain', name='email')],
+      rule=("each generator emits every case once (L1 odometer over 12 classes, L2 templates x bytes, L3 length/placement generators), every case "
+            "is run in 4 modes x tld_check off/on; non-trivial = L1 strings containing an '@' with bytes on both sides; counted by the driver"),
+      deadline=dict(quick=240, thorough=3000))
+
 # ---------------------------------------------------------------------------
 def load_findings():
     p = os.path.join(V, 'known_findings.json')
